@@ -12,69 +12,54 @@ of the va_arg builtins, decoded prologues).
 
 Statements that are FALSE for the code as it is are kept visible: each has a `…_counterexample`
 (a concrete witness, checked by `decide`) and a `…_partial` theorem with the explicit extra
-hypothesis; the correspondence check replays every witness on the real generated code.
+hypothesis; the correspondence check replays every witness on the real generated code.  Today this
+concerns `va_start` only (§3); the long-double and `va_block_arg` defects were repaired in /repo
+(6f58eeff, a84677ea), their theorems are full and their witnesses are regression `example`s.
 -/
 namespace MirVerif.C06
 open MirVerif.AbiCallee
 
 /-! ## 1. Incoming arguments of generated code (`target_machinize`) -/
 
-/- FALSE today (defect #11, callee side):
-   theorem callee_meets_sysv (ps) (hwf : allWf ps) (S : Int) :
-     (calleePlace ps).map (·.map (MPiece.resolve (S - 8))) = (sysvIncoming ps).map (·.map (Piece.resolve S))
-   `mem_size += 16` for a `long double` without first rounding `mem_size` up to 16. -/
-
-/-- witness: seven integers, then a long double — the psABI puts it at offset 16, the code reads offset 8 -/
-theorem callee_meets_sysv_counterexample :
-    ∃ ps, allWf ps = true ∧ (calleePlace ps).map (·.map MPiece.toPiece) ≠ sysvIncoming ps :=
-  ⟨[.int, .int, .int, .int, .int, .int, .int, .ld], by decide⟩
-
-/-- For every parameter list (any length, any mix, blocks of every case) in which no `long double`
-needs alignment padding, every eightbyte of every parameter is read from exactly the register or the
-absolute stack address the psABI assigns to it, given `rbp = S - 8` after the prologue (`S` = `rsp` at
-entry). -/
-theorem callee_meets_sysv_partial (ps : List PTy) (hwf : allWf ps = true)
-    (hld : ldAligned .init ps = true) (S : Int) :
+/-- For every parameter list (any length, any mix, blocks of every case) every eightbyte of every
+parameter is read from exactly the register or the absolute stack address the psABI assigns to it,
+given `rbp = S - 8` after the prologue (`S` = `rsp` at entry).
+(Was `callee_meets_sysv_partial` with the hypothesis "no long double needs padding" until fix
+6f58eeff rounded `mem_size` up to 16 before a `long double`; defect #11, callee side.) -/
+theorem callee_meets_sysv (ps : List PTy) (hwf : allWf ps = true) (S : Int) :
     (calleePlace ps).map (·.map (MPiece.resolve (S - 8)))
       = (sysvIncoming ps).map (·.map (Piece.resolve S)) :=
-  (machWalk_sysv S ps .init .init ⟨rfl, rfl, rfl⟩ hwf hld).1
+  (machWalk_sysv S ps .init .init ⟨rfl, rfl, rfl⟩ hwf).1
 
-example : allWf [.int, .dbl, .blk 1 12, .flt, .int, .int, .int, .int, .int, .blk 3 16, .blk 0 32, .ld, .int, .dbl] = true
-    ∧ ldAligned .init [.int, .dbl, .blk 1 12, .flt, .int, .int, .int, .int, .int, .blk 3 16, .blk 0 32, .ld, .int, .dbl] = true := by
+example : allWf [.int, .dbl, .blk 1 12, .flt, .int, .int, .int, .int, .int, .blk 3 16, .blk 0 24, .ld, .int, .dbl] = true := by
   decide
+
+/-- regression for the former witness of #11: seven integers, then a long double -/
+example : (calleePlace [.int, .int, .int, .int, .int, .int, .int, .ld]).map (·.map MPiece.toPiece)
+    = sysvIncoming [.int, .int, .int, .int, .int, .int, .int, .ld] := by decide
 
 /-! ## 2. The interpreter shim (`_MIR_get_interp_shim` + `interp` + `va_block_arg_builtin`) -/
 
-/- FALSE today:
-   theorem shim_meets_sysv (ps) (hwf : allWf ps) : shimPlace ps = sysvIncoming ps
-   (a) `va_block_arg_builtin` case 3/4 advances `fp_offset` by 8 instead of 16;
-   (b) case 2 never checks that SSE registers are left. -/
-
-theorem shim_meets_sysv_counterexample_mixed :
-    ∃ ps, allWf ps = true ∧ shimPlace ps ≠ sysvIncoming ps :=
-  ⟨[.int, .blk 3 16, .dbl], by decide⟩
-
-theorem shim_meets_sysv_counterexample_sse :
-    ∃ ps, allWf ps = true ∧ shimPlace ps ≠ sysvIncoming ps :=
-  ⟨[.dbl, .dbl, .dbl, .dbl, .dbl, .dbl, .dbl, .dbl, .blk 2 16], by decide⟩
-
-/-- For every parameter list without mixed-class blocks in which every SSE-class block finds its
-registers, the values the interpreter receives are read from the psABI locations (`long double`
-included: the C compiler's `va_arg` aligns it).  Also: the `va_list` handed to `va_start` afterwards is in
-the psABI state. -/
-theorem shim_meets_sysv_partial (ps : List PTy) (hwf : allWf ps = true)
-    (hsafe : blkSafe .init ps = true) :
+/-- For every parameter list the values the interpreter receives are read from the psABI locations
+(`long double`: the C compiler's `va_arg` aligns it; blocks: `va_block_arg_builtin`), and the
+`va_list` handed to `va_start` afterwards is in the psABI state.
+(Was `_partial` — no mixed-class block, SSE blocks must fit — until fix a84677ea.) -/
+theorem shim_meets_sysv (ps : List PTy) (hwf : allWf ps = true) :
     shimPlace ps = sysvIncoming ps ∧ VaRel (vaStartShim ps) (sysvWalk .init ps).2 :=
-  shimWalk_sysv ps .shimInit .init ⟨rfl, rfl, rfl, by decide, by decide⟩ hwf hsafe
+  shimWalk_sysv ps .shimInit .init ⟨rfl, rfl, rfl, by decide, by decide⟩ hwf
 
-example : allWf [.int, .ld, .blk 2 16, .int, .int, .int, .int, .int, .int, .ld, .blk 1 9, .blk 0 40] = true
-    ∧ blkSafe .init [.int, .ld, .blk 2 16, .int, .int, .int, .int, .int, .int, .ld, .blk 1 9, .blk 0 40] = true := by
+example : allWf [.int, .ld, .blk 2 16, .int, .blk 3 16, .int, .int, .int, .int, .ld, .blk 1 9, .blk 4 12, .blk 0 40] = true := by
   decide
+
+/-- regressions for the former witnesses (mixed-class block; SSE block without registers left) -/
+example : shimPlace [.int, .blk 3 16, .dbl] = sysvIncoming [.int, .blk 3 16, .dbl] := by decide
+example : shimPlace [.dbl, .dbl, .dbl, .dbl, .dbl, .dbl, .dbl, .dbl, .blk 2 16]
+    = sysvIncoming [.dbl, .dbl, .dbl, .dbl, .dbl, .dbl, .dbl, .dbl, .blk 2 16] := by decide
 
 /-! ## 3. `va_start` in generated code -/
 
-/- FALSE today (defect #12 and relatives):
-   theorem va_start_meets_sysv (ps) : (vaStartGen ps).toVaList.norm = sysvVaStart ps
+/- FALSE today (defect #12 and relatives; candidate repair fixes/C06-va-start.patch):
+   statement  va_start_meets_sysv (ps) : (vaStartGen ps).toVaList.norm = sysvVaStart ps
    `gp_offset += 8; if (gp_offset >= 48) mem_offset += 8` counts the sixth register argument as a
    stack argument; the floating-point branch tests `gp_offset >= 176` (never true) instead of
    `fp_offset`; block parameters are always counted as memory, with their unrounded size. -/
@@ -97,86 +82,69 @@ theorem va_start_counterexample_block_in_regs :
 theorem va_start_counterexample_block_size :
     (vaStartGen [.int, .blk 0 20]).toVaList.norm ≠ sysvVaStart [.int, .blk 0 20] := by decide
 
-/-- With fewer than six integer-class and at most eight SSE-class named parameters and only plain
-memory blocks (any number of `long double`s), the three fields stored by the expansion are exactly
-the psABI's. -/
+/-- With fewer than six integer-class and at most eight SSE-class named parameters and only memory
+blocks whose size is a multiple of 8 (any number of `long double`s, padded as the psABI says since
+6f58eeff), the three fields stored by the expansion are exactly the psABI's. -/
 theorem va_start_meets_sysv_partial (ps : List PTy) (hok : vaStartOK ps = true) :
     (vaStartGen ps).toVaList = sysvVaStart ps := by
   simp only [vaStartOK, Bool.and_eq_true, decide_eq_true_eq] at hok
   obtain ⟨⟨hi, hf⟩, hb⟩ := hok
-  have h := vaStart_fold ps ⟨0, 48, 0⟩ .init rfl rfl rfl (by decide)
+  have h := vaStart_fold ps ⟨0, 48, 0⟩ .init rfl rfl rfl
     (by simpa [SysV.init] using hi) (by simpa [SysV.init] using hf) hb
   obtain ⟨h1, h2, h3, _, _⟩ := h
   simp only [vaStartGen, VaSt.toVaList, sysvVaStart, h1, h2, h3]
 
-example : vaStartOK [.int, .dbl, .ld, .blk 0 32, .int, .int, .dbl, .ld, .int, .rblk] = true := by decide
+example : vaStartOK [.int, .dbl, .blk 0 24, .ld, .int, .int, .dbl, .ld, .int, .rblk] = true := by decide
 
 /-- The candidate repair (`fixes/C06-va-start.patch`, modelled by `vaStartFixed`) is right for every
-named-parameter list the argument loop itself handles correctly: the `_partial` hypothesis shrinks to
-the one of `callee_meets_sysv_partial`. -/
-theorem va_start_fixed_meets_sysv (ps : List PTy) (hwf : allWf ps = true)
-    (hld : ldAligned .init ps = true) : vaStartFixed ps = sysvVaStart ps := by
-  obtain ⟨h1, h2, h3⟩ := (machWalk_sysv 0 ps .init .init ⟨rfl, rfl, rfl⟩ hwf hld).2
+well-formed named-parameter list: no extra hypothesis remains. -/
+theorem va_start_fixed_meets_sysv (ps : List PTy) (hwf : allWf ps = true) :
+    vaStartFixed ps = sysvVaStart ps := by
+  obtain ⟨h1, h2, h3⟩ := (machWalk_sysv 0 ps .init .init ⟨rfl, rfl, rfl⟩ hwf).2
   simp only [vaStartFixed, sysvVaStart, h1, h2, h3, Nat.mul_comm]
 
-example : vaStartFixed [.int, .int, .int, .int, .int, .int, .blk 1 16, .dbl, .blk 0 20]
-    = sysvVaStart [.int, .int, .int, .int, .int, .int, .blk 1 16, .dbl, .blk 0 20] := by decide
+example : vaStartFixed [.int, .int, .int, .int, .int, .int, .blk 1 16, .dbl, .blk 0 20, .ld]
+    = sysvVaStart [.int, .int, .int, .int, .int, .int, .blk 1 16, .dbl, .blk 0 20, .ld] := by decide
 
 /-! ## 4. Fetching variadic arguments (`va_arg_builtin`, `va_block_arg_builtin`) -/
 
-/- FALSE today:
-   theorem va_arg_walk (named tail) : walking `tail` with va_arg from the psABI va_list state visits
-   exactly the psABI locations of the caller's variadic arguments.
-   Fails for `long double` after an odd number of stack words (no alignment of overflow_arg_area),
-   for mixed-class blocks (fp_offset += 8) and SSE blocks without registers left. -/
-
-theorem va_arg_walk_counterexample_mixed :
-    ((vaArgWalk (sysvVaStart [.int]) [.blk 3 16, .dbl]).1.map (·.map Src.toPiece))
-      ≠ (sysvWalk (sysvWalk .init [.int]).2 [.blk 3 16, .dbl]).1 := by decide
-
-theorem va_arg_walk_counterexample_sse :
-    ((vaArgWalk (sysvVaStart [.int]) [.dbl, .dbl, .dbl, .dbl, .dbl, .dbl, .dbl, .dbl, .blk 2 16]).1.map
-        (·.map Src.toPiece))
-      ≠ (sysvWalk (sysvWalk .init [.int]).2 [.dbl, .dbl, .dbl, .dbl, .dbl, .dbl, .dbl, .dbl, .blk 2 16]).1 := by
-  decide
-
-theorem va_arg_walk_counterexample_ld :
-    ((vaArgWalk (sysvVaStart [.int]) [.int, .int, .int, .int, .int, .int, .ld]).1.map (·.map Src.toPiece))
-      ≠ (sysvWalk (sysvWalk .init [.int]).2 [.int, .int, .int, .int, .int, .int, .ld]).1 := by decide
-
 /-- Starting from a `va_list` in the psABI state for what the named parameters consumed, iterating
-`va_arg` / `va_block_arg` over a variadic tail of any length fetches every eightbyte from exactly the
-location where the psABI makes the caller put it (register-save-area slot of the right register, or
-the right stack offset) — provided no `long double` needs padding, SSE blocks find registers and no
-mixed-class block occurs. -/
-theorem va_arg_walk_partial (v : VaList) (s : SysV) (tail : List PTy) (hR : VaRel v s)
-    (hwf : allWf tail = true) (hsafe : blkSafe s tail = true) (hld : ldAligned s tail = true) :
+`va_arg` / `va_block_arg` over a variadic tail of any length and any mix fetches every eightbyte from
+exactly the location where the psABI makes the caller put it (register-save-area slot of the right
+register, or the right — for `long double` 16-byte aligned — stack offset).
+(Was `_partial` until fixes 6f58eeff (long double) and a84677ea (mixed-class and SSE blocks).) -/
+theorem va_arg_walk (v : VaList) (s : SysV) (tail : List PTy) (hR : VaRel v s)
+    (hwf : allWf tail = true) :
     (vaArgWalk v tail).1.map (·.map Src.toPiece) = (sysvWalk s tail).1 :=
-  (vaArgWalk_sysv tail v s hR hwf hsafe hld).1
+  (vaArgWalk_sysv tail v s hR hwf).1
 
-/-- generated code end to end: `va_start` after `named`, then the walk -/
+/-- regressions for the three former witnesses -/
+example : ((vaArgWalk (sysvVaStart [.int]) [.blk 3 16, .dbl]).1.map (·.map Src.toPiece))
+    = (sysvWalk (sysvWalk .init [.int]).2 [.blk 3 16, .dbl]).1 := by decide
+example : ((vaArgWalk (sysvVaStart [.int]) [.dbl, .dbl, .dbl, .dbl, .dbl, .dbl, .dbl, .dbl, .blk 2 16]).1.map
+      (·.map Src.toPiece))
+    = (sysvWalk (sysvWalk .init [.int]).2 [.dbl, .dbl, .dbl, .dbl, .dbl, .dbl, .dbl, .dbl, .blk 2 16]).1 := by
+  decide
+example : ((vaArgWalk (sysvVaStart [.int]) [.int, .int, .int, .int, .int, .int, .ld]).1.map (·.map Src.toPiece))
+    = (sysvWalk (sysvWalk .init [.int]).2 [.int, .int, .int, .int, .int, .int, .ld]).1 := by decide
+
+/-- generated code end to end: `va_start` after `named` (still under `vaStartOK`, see §3), then the walk -/
 theorem vararg_gen_partial (named tail : List PTy) (hn : allWf named = true) (hok : vaStartOK named = true)
-    (hwf : allWf tail = true) (hsafe : blkSafe (sysvWalk .init named).2 tail = true)
-    (hld : ldAligned (sysvWalk .init named).2 tail = true) :
+    (hwf : allWf tail = true) :
     (vaArgWalk (vaStartGen named).toVaList tail).1.map (·.map Src.toPiece)
       = (sysvWalk (sysvWalk .init named).2 tail).1 := by
   rw [va_start_meets_sysv_partial named hok]
   have hb := sysvWalk_bounds named .init hn (by decide) (by decide)
-  exact va_arg_walk_partial _ _ tail ⟨rfl, rfl, rfl, hb.1, hb.2⟩ hwf hsafe hld
+  exact va_arg_walk _ _ tail ⟨rfl, rfl, rfl, hb.1, hb.2⟩ hwf
 
-/-- interpreter end to end -/
-theorem vararg_shim_partial (named tail : List PTy) (hn : allWf named = true)
-    (hns : blkSafe .init named = true) (hwf : allWf tail = true)
-    (hsafe : blkSafe (sysvWalk .init named).2 tail = true)
-    (hld : ldAligned (sysvWalk .init named).2 tail = true) :
+/-- interpreter end to end, every signature -/
+theorem vararg_shim (named tail : List PTy) (hn : allWf named = true) (hwf : allWf tail = true) :
     (vaArgWalk (vaStartShim named) tail).1.map (·.map Src.toPiece)
       = (sysvWalk (sysvWalk .init named).2 tail).1 :=
-  va_arg_walk_partial _ _ tail (shim_meets_sysv_partial named hn hns).2 hwf hsafe hld
+  va_arg_walk _ _ tail (shim_meets_sysv named hn).2 hwf
 
 example : allWf [.int, .dbl] = true ∧ vaStartOK [.int, .dbl] = true
-    ∧ allWf [.int, .dbl, .blk 1 16, .int, .int, .int, .int, .blk 2 8, .ld, .int, .blk 0 24] = true
-    ∧ blkSafe (sysvWalk .init [.int, .dbl]).2 [.int, .dbl, .blk 1 16, .int, .int, .int, .int, .blk 2 8, .ld, .int, .blk 0 24] = true
-    ∧ ldAligned (sysvWalk .init [.int, .dbl]).2 [.int, .dbl, .blk 1 16, .int, .int, .int, .int, .blk 2 8, .ld, .int, .blk 0 24] = true := by
+    ∧ allWf [.int, .dbl, .blk 1 16, .int, .blk 3 16, .int, .int, .blk 2 8, .ld, .int, .blk 0 24, .blk 4 12] = true := by
   decide
 
 /-! ## 5. Frame (`target_make_prolog_epilog`) -/
